@@ -51,12 +51,7 @@ Definition pf_same2 (a b : float * float) : bool :=
   pf_same (fst a) (fst b) && pf_same (snd a) (snd b).
 
 (* clamped value as astropy_to_nsec computes it *)
-Definition pf_clamp (t : float * float) : float * float :=
-  if PrimFloat.ltb (tc_cmp_val float prim_ops t (tc_epoch float prim_ops)) (f_zero float prim_ops)
-  then tc_epoch float prim_ops
-  else if PrimFloat.ltb (f_zero float prim_ops) (tc_cmp_val float prim_ops t (tc_max_time float prim_ops))
-  then tc_max_time float prim_ops
-  else t.
+Definition pf_clamp (t : float * float) : float * float := tc_clamp float prim_ops t.
 
 (* round trip: n, observed (jd1, jd2) of nsec_to_astropy(n), observed TimeDelta(jd1, jd2, format="jd") parts,
    observed (value - epoch) parts, observed astropy_to_nsec *)
